@@ -229,7 +229,8 @@ def run(rep):
         "main_stream_programs_where_mech_deviates": main_dev,
         "core_features": dict(cfeats.most_common(25)),
         "ref_cross_check": {"sample": len(sample), "equal": ref_same},
-        "exhaustive": ("all 16 binary operators, && || ?: ! - ~, 3-argument calls, 1-3 dimensional index lists x operand values "
+        "exhaustive": not quick,
+        "exhaustive_scope": ("the systematic stream only: all 16 binary operators, && || ?: ! - ~, 3-argument calls, 1-3 dimensional index lists x operand values "
                        "{0,1,2,-1}^2 x 14 contexts x {traced, left fails, right fails}" if not quick else
                        "all operators x zero/non-zero operand combinations x 14 contexts x {traced, left fails, right fails}"),
         "samples": [{"program": ms[j]["src"], "reference": ms[j]["ref"], "mech": ms[j]["mech"], "main_stdout": irs[j]["out"], "main_rc": irs[j]["rc"]}
